@@ -228,17 +228,58 @@ def rebuild_chain(chain):
 # ---------------------------------------------------------------- (a) sequence vs tuple model
 
 class Reporter:
-    def __init__(self, res, case):
+    def __init__(self, res, case, default_mechanism=None):
         self.res, self.case = res, case
         self.nviol = 0
+        self.default_mechanism = default_mechanism  # set only when a structural predicate of an open finding holds for this part
 
     def violation(self, monitor, detail, mechanism=None, **extra):
         self.nviol += 1
         if self.nviol <= 6:
-            self.res.violation(monitor, dict(self.case, **extra), detail, mechanism=mechanism)
+            self.res.violation(monitor, dict(self.case, **extra), detail, mechanism=mechanism or self.default_mechanism)
 
     def count(self, name, n=1):
         self.res.count(name, n)
+
+
+def _subsequences(seq):
+    if hasattr(seq, '_parent'):
+        return [seq._parent]
+    if hasattr(seq, '_items'):
+        return list(seq._items)
+    return []
+
+
+def two_faces_same_opposite(tr, op):
+    """Structural predicate of the open finding C11-two-shared-faces-same-opposite: at some level of the (parallel)
+    nesting of a topology's transforms / opposites sequences, two DIFFERENT faces of ONE element (same Index items,
+    different chains) carry the identical opposite chain.  That is what `util.index(connectivity[ioppelem], ielem)`
+    produces when two elements share two faces (periodic direction with two elements): the inner opposites sequence
+    then contains a duplicate, which violates the documented precondition of Transforms and makes index() of the
+    masked/derived sequences built on top of it fail."""
+    try:
+        if len(tr) == len(op) and 0 < len(tr) <= 4000:
+            T = [tuple(c) for c in tr]
+            seen = {}
+            for k, c in enumerate(op):
+                key = tuple(map(id, c))
+                j = seen.setdefault(key, k)
+                if j != k and index_items(T[j]) == index_items(T[k]) and tuple(map(id, T[j])) != tuple(map(id, T[k])):
+                    return True
+            del T
+    except Exception:
+        return False
+    a, b = _subsequences(tr), _subsequences(op)
+    if type(tr) is type(op) and len(a) == len(b):
+        return any(two_faces_same_opposite(x, y) for x, y in zip(a, b))
+    return False
+
+
+def hull(ref):
+    """the untrimmed reference behind a trimmed (WithChildren / Mosaic / OwnChild) reference"""
+    while hasattr(ref, 'baseref'):
+        ref = ref.baseref
+    return ref
 
 
 def _lookup(seq, method, chain):
@@ -742,14 +783,25 @@ def check_index_coords(topo, other, rng, rep, where, own, ischeme=('gauss', 2), 
         if index_items(tseq[i]) != index_items(side[j])[:len(index_items(tseq[i]))]:
             rep.violation('f_index names an element with other Index items than the sample element', f'{where}: sample element {j} chain {side[j]!r} -> element {i} chain {tseq[i]!r}'[:1000], where=where, j=j)
             continue
+        # a local coordinate of element i must lie in the (untrimmed) reference of element i.  Whether it also lies in the
+        # trimmed part is not demanded: the edge references of a trimmed element and its volume mosaic are separate
+        # approximations of the cut (observed: a face of a trimmed tetrahedron with a vertex 2e-3 outside the volume
+        # mosaic), whose consistency is a conservation question (C10), not a lookup / coordinate-map question.
         ref = topo.references[i]
         try:
-            inside = all(ref.inside(p, 1e-8) for p in crd[I])
+            inside = all(hull(ref).inside(p, 1e-8) for p in crd[I])
         except Exception:
             res.count('inside_unavailable')
             inside = True
         if not inside:
             rep.violation('f_coords outside the reference of element f_index', f'{where}: sample element {j} -> element {i}, coords {crd[I].tolist()}'[:800], where=where, j=j)
+        elif hull(ref) is not ref:
+            res.count('f_coords_on_trimmed_elements')
+            try:
+                if not all(ref.inside(p, 1e-8) for p in crd[I]):
+                    res.count('f_coords_outside_trimmed_part_of_element')
+            except Exception:
+                res.count('inside_unavailable')
 
 
 # ---------------------------------------------------------------- (c) interfaces: jump of a continuous function
